@@ -58,6 +58,14 @@ def check_engine(ctx, F, b, fn, tag):
     updates = fl.calls(lambda c: c in UPDATE)
     validates = fl.calls_to('delta::Delta::validate')
     # ---- R1
+    if not validates:
+        own = [bi for bi in cfg.reachable() for st in b.blocks[bi]['stmts']
+               if st['rv']['k'] == 'agg' and st['rv'].get('vname') == 'InvalidCopyBounds']
+        if own:
+            # the engine refuses out-of-bounds copies by a test of its own (its own pass over the operations) instead of calling
+            # Delta::validate: whether that test covers every copy is a question about that loop, not read here
+            ctx.undecided('C05.R1', '%s checks the copy bounds itself (builds InvalidCopyBounds) instead of calling Delta::validate: that every copy is checked before the first write is not decided' % fn)
+            return
     for (wb, wt) in writes:
         name = root_name(fl, wt['args'][1])
         ok = any(fl.guarded_by(wb, vb, 'Ok') for vb, _ in validates)
